@@ -77,8 +77,12 @@ def _run_one(prop, batch_seed, index, tier, avoid, want_sample, want_log=False):
         "nontrivial": bool(res["nontrivial"]),
         "sim_time": res["sim_time"],
         "steps": res["steps"],
+        "keys": res.get("keys"),
+        "units": res.get("units", 1),
         "tags": sorted(_load(prop).tags(case)) if res["violations"] else [],
     }
+    for v in out["violations"]:
+        v["alltags"] = sorted(set(out["tags"]) | set(v.get("tags", [])))
     if want_sample:
         mod = _load(prop)
         if hasattr(mod, "sample"):
@@ -334,7 +338,7 @@ def main(argv=None):
         for v in r["violations"]:
             by_oracle.setdefault(v["oracle"], v)
         for oracle, v in sorted(by_oracle.items()):
-            raw_tags = r["tags"]
+            raw_tags = v.get("alltags", r["tags"])
             pre = findings_mod.match(kf, oracle, raw_tags)
             if minimised >= min_cap or time.monotonic() > min_deadline:
                 if pre is not None:
@@ -349,14 +353,19 @@ def main(argv=None):
                                         deadline=min_deadline)
             else:
                 mcase, spent = case, 0
-            mtags = sorted(mod.tags(mcase))
+            v2 = _fails_same(prop, mcase, oracle) or v
+            if hasattr(mod, "finalize"):
+                fcase = mod.finalize(mcase, v2)
+                v3 = _fails_same(prop, fcase, oracle)
+                if v3 is not None:
+                    mcase, v2 = fcase, v3
+            mtags = sorted(set(mod.tags(mcase)) | set(v2.get("tags", [])))
             entry = findings_mod.match(kf, oracle, mtags)
             if entry is not None:
                 known_hits[entry["id"]] = known_hits.get(entry["id"], 0) + 1
                 continue
             sig = (oracle, tuple(mtags))
             name = f"{prop}-{batch_seed}-{r['i']}-{oracle.replace('.', '_')}.json"
-            v2 = _fails_same(prop, mcase, oracle) or v
             path = write_replay(prop, mcase, v2, mtags, name)
             if verify_replay_fresh(prop, path):
                 if sig in seen_sig:
